@@ -63,6 +63,16 @@ def cmp_scalar(obs, exp, tol=TOL, name=''):
     return None
 
 
+# Homogeneity: every kernel of the library is homogeneous in its data (degree 1 or 2), and the exact universe
+# is closed under scaling by a power of two (exact in binary floating point).  Replaying a state at a scale far
+# from 1 and un-scaling the result exposes absolute thresholds / additive constants hidden in the code.
+SCALES = (2.0 ** -40, 2.0 ** 30)
+
+
+def scale_for(idx):
+    return SCALES[idx % len(SCALES)]
+
+
 def entry_variants(values, cplx, idx=0, full=False):
     """Entry paths for the same exact samples (the exact universe is integer valued, so every
     dtype represents it exactly): -> list of (name, object, tolerance).
